@@ -8,7 +8,7 @@
    check_spec  : the implementation's answers are judged AGAINST EACH OTHER, per the property
                  statement, inside each segment of the history between two mutations (the registry
                  state is constant there; only caches change).  No registry model is used: only the
-                 factory oracle [call], the object table and the Spec-level combinators
+                 factory oracle [call8], the object table and the Spec-level combinators
                  apply_factory / call_all. *)
 From Coq Require Import List Arith Bool.
 Import ListNotations.
@@ -27,15 +27,24 @@ Definition case_t := (list phase * list (list nat))%type.
    constant so that the unary number is built once per file *)
 Definition MARK : nat := 999999.
 
+(* What a registered value returns when called (mirrors c08_driver.oracle_call8): like the shared oracle
+   of Tie/RegCommon, except that some results are FALSY without being None (0, (), '', an empty
+   container-like object: all encoded as the number 0) - an adapter or subscriber may be false. *)
+Definition call8 (v : value) (os : list nat) : option nat :=
+  let s := vid v + fold_right Nat.add 0 os in
+  if Nat.eqb (s mod 3) 0 then None
+  else if Nat.eqb (s mod 5) 1 then Some 0
+  else call v os.
+
 (* The model run = Model/RegSys.run, with the separator of the subscribers answer taken from the
    shared constant (the literal in RegSys.step is rebuilt, a million constructors, at every
    QSubscribers step: 50 ms each).  [run8_eq] shows it is the same function. *)
 Definition step8 (W : world) (s : sys) (o : rop) : sys * list nat :=
   match o with
   | QSubscribers r os p =>
-      let '(s', a) := with_lookup W s r (fun _ _ us c => subscribers us call c os p) in
+      let '(s', a) := with_lookup W s r (fun _ _ us c => subscribers us call8 c os p) in
       (s', fst a ++ [MARK] ++ map vid (snd a))
-  | _ => step W call s o
+  | _ => step W call8 s o
   end.
 
 (* final state and answers *)
@@ -45,13 +54,13 @@ Fixpoint run8 (W : world) (s : sys) (ops : list rop) : sys * list (list nat) :=
   | o :: ops' => let '(s', a) := step8 W s o in let '(s'', l) := run8 W s' ops' in (s'', a :: l)
   end.
 
-Lemma step8_eq W s o : step8 W s o = step W call s o.
+Lemma step8_eq W s o : step8 W s o = step W call8 s o.
 Proof. destruct o; reflexivity. Qed.
 
-Lemma run8_eq W ops : forall s, snd (run8 W s ops) = run W call s ops.
+Lemma run8_eq W ops : forall s, snd (run8 W s ops) = run W call8 s ops.
 Proof.
   induction ops as [|o ops IH]; intros s; cbn [run8 run]; [reflexivity|].
-  rewrite step8_eq. destruct (step W call s o) as [s' a]. specialize (IH s').
+  rewrite step8_eq. destruct (step W call8 s o) as [s' a]. specialize (IH s').
   destruct (run8 W s' ops) as [s'' l]. cbn [snd] in *. rewrite IH. reflexivity.
 Qed.
 
@@ -79,11 +88,11 @@ Definition model_out (c : case_t) : list (list nat) := run_phases [] (fst c).
 
 Definition check_model (c : case_t) : bool := llnat_eqb (model_out c) (snd c).
 
-(* over a static world this is the shared fidelity check of Tie/RegCommon *)
+(* over a static world this is Model/RegSys.run from the empty system, as in Tie/RegCommon *)
 Lemma check_model_static g ifs ops obs :
-  check_model ([(g, ifs, [], ops)], obs) = hist_check_model (g, ifs, ops, obs).
+  check_model ([(g, ifs, [], ops)], obs) = llnat_eqb (run (mk_world g ifs) call8 [] ops) obs.
 Proof.
-  unfold check_model, model_out, hist_check_model, hist_model_out. cbn [fst snd run_phases invalidate length seq fold_left].
+  unfold check_model, model_out. cbn [fst snd run_phases invalidate length seq fold_left].
   pose proof (run8_eq (mk_world g ifs) ops []) as H.
   destruct (run8 (mk_world g ifs) [] ops) as [s' l]. cbn [snd] in H. rewrite app_nil_r, H. reflexivity.
 Qed.
@@ -132,7 +141,7 @@ Definition obj_eqb (a b : obj) : bool :=
 (* decoding of the canonical answers (Model/RegSys.enc_*, harness/drivers/reg_common.py) *)
 Definition dec_value (a : list nat) : option (res value) :=
   match a with
-  | [1; v] => Some (RVal (mkV v 0))       (* [call] only looks at the identity *)
+  | [1; v] => Some (RVal (mkV v 0))       (* [call8] only looks at the identity *)
   | [0] => Some RDefault
   | [2] => Some RValueError
   | _ => None
@@ -162,7 +171,7 @@ Definition compat (x y : claim) : bool :=
   | CApply r os p n a, CLookup r' req' p' n' la =>
       if same_lookup r (map o_provides os) p n r' req' p' n' then
         match dec_value la with
-        | Some l => lnat_eqb a (enc_res_nat (apply_factory call l (map unwrap os)))
+        | Some l => lnat_eqb a (enc_res_nat (apply_factory call8 l (map unwrap os)))
         | None => false
         end
       else true
@@ -187,7 +196,7 @@ Definition compat (x y : claim) : bool :=
         let '(results, called) := split_at_mark a in
         lnat_eqb results (match p with
                           | None => []
-                          | Some _ => call_all call (map (fun v => mkV v 0) subs) (map o_id os)
+                          | Some _ => call_all call8 (map (fun v => mkV v 0) subs) (map o_id os)
                           end)
         && lnat_eqb called subs
       else true
